@@ -33,7 +33,7 @@ RULE = ("Hypothesis draws a 1-2 page document with 1-3 items; every item carries
         "doubled separators, ./ segments, long (many ../ or >255-byte components), backslashes, traversal that stays "
         "inside, name of an existing resource/file (collision), benign.  Sandbox per case: out/ (output_dir, "
         "pre-populated with the file names the export is about to use), outside/ (bait *.pickle.gz = benign pickle, "
-        "victim files), cmap/ (CMAP_PATH, one legitimate map, optionally the directories `to-unicode-`), cwd/.  "
+        "victim files), cmap/ (CMAP_PATH, one legitimate map, optionally the directories `to-unicode-`), cwd/ (with CMAP_PATH unset in a quarter of the cases, baits then also lie in cwd and only /usr/share/pdfminer is a legitimate extra directory).  "
         "Oracle: audit events open/os.*/shutil.*/... during extract_text_to_fp(output_dir=out; text/xml/html) and "
         "extract_text: reads only below pdfminer/cmap or CMAP_PATH (+ interpreter import traffic), writes only to new "
         "paths below output_dir, each at most once; snapshot diff: nothing created/changed/deleted outside out/, no "
@@ -357,6 +357,10 @@ def make_sandbox(recipe):
         os.symlink(os.path.join(root, "outside", "sub"), os.path.join(cmap_abs, "extra"))
     with open(os.path.join(root, "cwd", "note.txt"), "wb") as f:
         f.write(b"cwd file")
+    if recipe.get("cmap_env") == "unset":
+        # CMAP_PATH not set: the library's documented default directory applies, never the working directory
+        for name in list(recipe.get("baits", [])) + list(recipe.get("cmap", [])):
+            _write_bait(os.path.join(root, "cwd", name + ".pickle.gz"))
     return root
 
 
@@ -421,7 +425,7 @@ def _call_library(pdf, outdir, api, mon, excs):
     _purge_caches()
 
 
-def _monitored(pdf, root, cmap_abs, outdir, api):
+def _monitored(pdf, root, cmap_abs, outdir, api, cmap_env="set"):
     """Runs the library inside the sandbox environment; returns (events, loading names, exceptions)."""
     lg = logging.getLogger("pdfminer.cmapdb")
     cap = _Capture()
@@ -435,7 +439,10 @@ def _monitored(pdf, root, cmap_abs, outdir, api):
         lg.setLevel(logging.DEBUG)
         lg.propagate = False
         lg.disabled = False
-        os.environ["CMAP_PATH"] = cmap_abs
+        if cmap_env == "unset":
+            os.environ.pop("CMAP_PATH", None)
+        else:
+            os.environ["CMAP_PATH"] = cmap_abs
         os.chdir(os.path.join(root, "cwd"))
         _purge_caches()
         with mon:
@@ -470,7 +477,8 @@ def judge(events, root, snap_before, snap_after, out=None, cmap_abs=None):
     """-> (violations [str], write-open paths [as passed], read-open paths [resolved], created [root-relative])"""
     cwd = os.path.join(root, "cwd")
     out = out or os.path.join(root, "out")  # the directory passed as output_dir
-    allowed_read = [_cmapdir(), cmap_abs or os.path.join(root, "cmap")]
+    # cmap_abs == "": CMAP_PATH is not set, the documented default directory applies
+    allowed_read = [_cmapdir(), "/usr/share/pdfminer" if cmap_abs == "" else (cmap_abs or os.path.join(root, "cmap"))]
     viol, writes, wraw, reads = [], [], [], []
 
     def show(p):
@@ -554,13 +562,15 @@ def _run_case(case):
         items = _subst(case["items"], m)
         pdf = build_document(items, case.get("pages", 1))
         before = SB.snapshot(root)
-        events, loaded, excs = _monitored(pdf, root, cmap_abs, out_arg, case.get("api", {}))
+        unset = recipe.get("cmap_env") == "unset"
+        events, loaded, excs = _monitored(pdf, root, cmap_abs, out_arg, case.get("api", {}), "unset" if unset else "set")
         after = SB.snapshot(root)
-        viol, writes, reads, created = judge(events, root, before, after, out_abs, cmap_abs)
+        viol, writes, reads, created = judge(events, root, before, after, out_abs, "" if unset else cmap_abs)
     finally:
         shutil.rmtree(root, ignore_errors=True)
     # ---- classification
-    classes = ["outdir:" + recipe.get("outdir", "abs"), "cmap_path:" + (recipe.get("cmap_sub") or "cmap"), "api:" + case.get("api", {}).get("output_type", "text"),
+    classes = ["outdir:" + recipe.get("outdir", "abs"),
+               "cmap_path:" + ("unset" if recipe.get("cmap_env") == "unset" else (recipe.get("cmap_sub") or "cmap")), "api:" + case.get("api", {}).get("output_type", "text"),
                "pages:%d" % case.get("pages", 1)]
     classes += ["exc:" + e for e in sorted(set(excs))]
     nt = False
@@ -888,6 +898,7 @@ def cases(draw, focus):
         recipe["cmap_dirs"] = ["to-unicode-", "to-unicode-Adobe-", "to-unicode-X-"]
     recipe["outdir"] = draw(st.sampled_from(["abs", "abs", "abs", "abs", "rel", "rel", "new"]))
     recipe["cmap_sub"] = draw(st.sampled_from(["", "", "", "deep/er/still"]))
+    recipe["cmap_env"] = draw(st.sampled_from(["set", "set", "set", "unset"]))
     # several items may ask for the same pre-populated name: keep the first
     seen, out = set(), []
     for nm, content in recipe["out"]:
